@@ -29,6 +29,9 @@ def _pool():
         NO_ORIGIN, CodeOrigin, GeneratedCodeOrigin, MemoryTextSource, MultiOrigin, Source, XMLFileOrigin, XMLPath, get_code_range,
     )
 
+    from models.zoo import reset_all
+
+    reset_all()  # every registry, memo table and cache of the library as in a fresh process
     Source.clear_registry()
     srcs = [MemoryTextSource(_raw=TEXTS[k], source_uri=f"S{k}") for k in range(3)]
 
